@@ -89,7 +89,7 @@ CHECKS = {
         'with a reference model; exhaustive enumeration of the decay '
         'schedule domain up to a bound',
         'For all 64 subsets of scheduled parameters every history up to '
-        'depth 5 (quick) / 6 (thorough) over {step(), step(k), advance the '
+        'depth 6 (quick) / 8 (thorough) over {step(), step(k), advance the '
         'preconditioner} is executed on the real LambdaParamScheduler and '
         'compared (exact float equality) with a dictionary reference after '
         'every operation; all 7x64 constructor combinations; '
@@ -100,7 +100,7 @@ CHECKS = {
         'explicit-state BFS over call/clear/query histories of the real '
         'tracing module under an injected clock, in lock-step with a '
         'reference model',
-        'Every history up to length 5 (quick) / 6 (thorough) over completed '
+        'Every history up to length 6 (quick) / 7 (thorough) over completed '
         'calls of three traced functions (two sharing a name), raising '
         'calls and clear_trace is executed on the real kfac.tracing with a '
         'virtual clock; after every operation all 8 (average, max_history) '
@@ -293,7 +293,7 @@ CHECKS = {
         'bounded-exhaustive enumeration of 3-D topologies x ranks x cost '
         'dictionaries on the real GPTNeoXAssignment against coordinate '
         'arithmetic and a brute-force greedy-consistency oracle',
-        'For every (pipe, data, model) in {1..3}^3 (quick) / {1..4}^3 '
+        'For every (pipe, data, model) in {1..4}^3 (quick) / {1..5}^3 '
         '(thorough), every local rank and every cost dictionary with <=3 '
         'layers over costs {0,1,2} plus a tie-heavy catalogue, one real '
         'assignment per rank is built in a simulated world that records '
